@@ -11,8 +11,9 @@
 // carries the weight of the reference computed with the hidden frames deleted
 // from every sample (once per sample); in dot it is dotted (residual) iff some
 // contributing sample had hidden frames between its endpoints; (4) for text
-// reports on non-negative profiles the entries removed are exactly those with
-// |cum| below the cutoff or outside the top N of the sort key (ties either way).
+// reports the entries removed are exactly those with |cum| below the cutoff or
+// outside the top N by the magnitude of the sort key (ties either way), also
+// when some entries are negative (a difference against a base).
 // Plus a path family for trim_path / source_path (entries must not vanish).
 package c05
 
@@ -38,7 +39,7 @@ func init() { reg.Register("C05", Run) }
 var valueSets = [][]int64{
 	{5, 3, 1},  // distinct, non-negative
 	{2, 2, 2},  // ties
-	{5, -3, 1}, // mixed signs (invariance clauses only)
+	{5, -3, 1}, // mixed signs
 }
 
 type witness struct {
@@ -402,7 +403,7 @@ func one(c *vk.Ctx, w witness, a *ap.AP, cfg model.Cfg, ref *model.Rep, data map
 		}
 	}
 	// (4) removed set of text reports on non-negative profiles
-	if (out == "top" || out == "tree") && nonneg && !callTree {
+	if (out == "top" || out == "tree") && !callTree {
 		f, _ := strconv.ParseFloat(nf, 64)
 		cutoff := abs(int64(float64(total) * f))
 		key := func(x model.Row) int64 {
